@@ -343,11 +343,26 @@ impl Walrus {
                 };
                 let col_name = md.owned_by;
 
+                // A block spans one or more allocation units (entries larger than a unit
+                // get a multi-unit block). Every entry header records where its block
+                // ends, so take the block length from there instead of assuming one unit.
+                let block_limit = {
+                    let span = md.next_block_start.saturating_sub(block_offset);
+                    if md.next_block_start > block_offset
+                        && span % DEFAULT_BLOCK_SIZE == 0
+                        && md.next_block_start <= MAX_FILE_SIZE
+                    {
+                        span
+                    } else {
+                        DEFAULT_BLOCK_SIZE
+                    }
+                };
+
                 // scan entries to compute used
                 let block_stub = Block {
                     id: next_block_id as u64,
                     offset: block_offset,
-                    limit: DEFAULT_BLOCK_SIZE,
+                    limit: block_limit,
                     used: 0,
                     file_path: file_path.clone(),
                     mmap: mmap.clone(),
@@ -359,7 +374,7 @@ impl Walrus {
                             used += consumed as u64;
                             in_block_off += consumed as u64;
                             entries_in_block = entries_in_block.saturating_add(1);
-                            if in_block_off >= DEFAULT_BLOCK_SIZE {
+                            if in_block_off >= block_limit {
                                 break;
                             }
                         }
@@ -373,7 +388,7 @@ impl Walrus {
                 let block = Block {
                     id: next_block_id as u64,
                     offset: block_offset,
-                    limit: DEFAULT_BLOCK_SIZE,
+                    limit: block_limit,
                     used,
                     file_path: file_path.clone(),
                     mmap: mmap.clone(),
@@ -396,7 +411,7 @@ impl Walrus {
                     );
                 }
                 next_block_id += 1;
-                block_offset += DEFAULT_BLOCK_SIZE;
+                block_offset += block_limit;
             }
         }
 
